@@ -73,6 +73,9 @@ class Gen:
         dst = r.choice(self.dests + self.hot) if r.random() < 0.85 else r.choice(self.dests)
         prefix = r.choice(['bugfix', 'feature', 'improvement'])
         src = '%s/TEST-%d%s' % (prefix, i, r.choice(['', '-fix', '-w-5.1', '/sub']))
+        if self.prs and r.random() < 0.2:
+            # a name that merely extends the name of an earlier pull request's branch (TEST-1 / TEST-12, foo / foo-bar)
+            src = self.prs[0]['src'] + r.choice(['2', '-bis', '0'])
         ev = {'e': 'create_pr', 'src': src, 'dst': dst, 'label': self._label()}
         if r.random() < 0.2:     # two pull requests touching the same file: a conflict somewhere later
             ev['file'] = r.choice(self.files)
